@@ -279,7 +279,7 @@ def field_matrix(part):
                     continue
                 part.count('requests')
                 for path, node in ttlv.walk(r.tree):
-                    first = V.TAG_FIRST.get(node[0])
+                    first = V.tag_first(node[0])
                     last = V.TAG_LAST.get(node[0])
                     if first and version < first:
                         part.violation("field-sent-early|%06x" % node[0],
@@ -322,6 +322,105 @@ def field_matrix(part):
             finally:
                 w.close()
     part.sample({'matrix': 'version-conditional fields', 'cases': list(cases)})
+
+
+def _tags_of(tree):
+    return set(node[0] for path, node in ttlv.walk(tree))
+
+
+def grid_fields(part, arg, versions):
+    """The C13 request grid (operation x object kind x state x parameter deviations) under every
+    version, both directions. server -> client: no response may carry a tag the request's version
+    does not define. client -> server: the same request in the encoding of a LATER version but
+    announcing the earlier one (a foreign client library) - if its bytes carry a tag the announced
+    version does not define, the server must refuse it and change nothing."""
+    from checks import c13_no_general_failure as c13
+    w0, uids, kek = c13.base()
+    kind, a = arg
+    if kind == 'target':
+        tlabel, uid, k = a
+        plist = c13.probes(uid, kek, k)
+    else:
+        tlabel, plist = 'no-object', c13.object_free_probes()[a[0]::a[1]]
+    ctxb = {'matrix': 'grid', 'grid': [kind, list(a)]}
+    for label, vc, item in plist:
+        opl = label.split('|')[0]
+        for version in versions:
+            if not c13._vok(vc, version):
+                continue
+            # -- own encoding: what comes back
+            try:
+                data = W.encode_request(W.build_request(version, [item()]))
+                m = W.messages.RequestMessage()     # well-formed = the library's decoder accepts it
+                m.read(W.cutils.BytearrayStream(data), kmip_version=E.KMIPVersion.KMIP_1_2)
+            except Exception:   # noqa
+                data = None
+            if data is not None:
+                w = w0.clone()
+                try:
+                    W.CLOCK.now = W.T0 + 50
+                    r = W.Resp(w.send_bytes(data, user='alice'))
+                finally:
+                    w.close()
+                part.count('requests')
+                part.count('grid_requests')
+                part.counters.setdefault('_out', set()).add(('grid', opl, version, r.items[0].ok()))
+                if r.version != tuple(version):
+                    part.violation("grid|version-echo|%s" % opl,
+                                   "%s on %s under KMIP %d.%d answered in KMIP %s" % (
+                                       label, tlabel, version[0], version[1], r.version),
+                                   dict(ctxb, probe=label, version=list(version)))
+                for t in sorted(_tags_of(r.tree)):
+                    first = V.tag_first(t)
+                    last = V.TAG_LAST.get(t)
+                    if (first and version < first) or (last and version > last):
+                        part.violation("field-sent-%s|%06x|%s" % ('early' if first and version < first
+                                                                  else 'late', t, opl),
+                                       "response to %s on %s under KMIP %d.%d carries tag %06x (%s), "
+                                       "defined %s KMIP %d.%d" % (
+                                           label, tlabel, version[0], version[1], t, V.tagname(t),
+                                           'from' if first and version < first else 'until',
+                                           *(first if first and version < first else last)),
+                                       dict(ctxb, probe=label, version=list(version)))
+            # -- foreign encoding: a later version's bytes under this version's header
+            if version == (2, 0) or vc == '20':
+                continue
+            for enc in ((1, 4),):
+                if enc <= version:
+                    continue
+                try:
+                    fdata = W.encode_request(W.build_request(version, [item()]), enc)
+                except Exception:   # noqa
+                    continue
+                newer = sorted(t for t in _tags_of(ttlv.parse(fdata))
+                               if V.tag_first(t) and V.tag_first(t) > version)
+                if not newer:
+                    continue
+                w = w0.clone()
+                try:
+                    W.CLOCK.now = W.T0 + 50
+                    before = w.raw_key()
+                    r = W.Resp(w.send_bytes(fdata, user='alice'))
+                    after = w.raw_key()
+                finally:
+                    w.close()
+                part.count('requests')
+                part.count('grid_foreign_requests')
+                ok = bool(r.items) and r.items[0].ok()
+                part.counters.setdefault('_out', set()).add(('grid-in', opl, version, ok))
+                for t in (newer if ok else ()):
+                    part.violation("field-accepted-early|%s|%06x" % (opl, t),
+                                   "%s on %s announced as KMIP %d.%d but carrying tag %06x (%s, defined "
+                                   "from KMIP %d.%d) succeeded" % (
+                                       label, tlabel, version[0], version[1], t, V.tagname(t),
+                                       *V.tag_first(t)),
+                                   dict(ctxb, probe=label, version=list(version), foreign=list(enc)))
+                if not ok and before != after:
+                    part.violation("field-refused-but-changed|%s" % opl,
+                                   "%s on %s (KMIP %d.%d header, later fields) was refused but the store "
+                                   "changed" % (label, tlabel, version[0], version[1]),
+                                   dict(ctxb, probe=label, version=list(version), foreign=list(enc)))
+    part.sample({'matrix': 'grid fields', 'target': tlabel, 'probes': len(plist)})
 
 
 def discover_and_query(part):
@@ -402,7 +501,10 @@ PARTS = {'ops': op_matrix, 'unsupported': unsupported_versions, 'attributes': at
 
 def _worker(task):
     part = Part()
-    PARTS[task](part)
+    if isinstance(task, tuple):
+        grid_fields(part, task[1], task[2])
+    else:
+        PARTS[task](part)
     out = part.as_dict()
     out['out'] = len(part.counters.pop('_out', set()))
     return out
@@ -411,7 +513,16 @@ def _worker(task):
 def run(tier, seed):
     rep = Reporter('C16', 'exploration', tier, seed)
     distinct = 0
-    for part in pmap(_worker, list(PARTS)):
+    from checks import c13_no_general_failure as c13
+    targets, kek = c13.grid(tier)
+    tasks = list(PARTS)
+    for t in targets:
+        vs = W.VERSIONS if (tier == 'thorough' or t[0] in (
+            'SymmetricKey/act', 'PrivateKey/act', 'PublicKey/act', 'missing')) else [(1, 0), (1, 2), (2, 0)]
+        tasks.append(('grid', ('target', t), vs))
+    for i in range(8):
+        tasks.append(('grid', ('free', (i, 8)), W.VERSIONS))
+    for part in pmap(_worker, tasks):
         distinct += part.pop('out', 0)
         rep.merge(part)
     n = rep.counters.get('requests', 0)
@@ -426,9 +537,15 @@ def run(tier, seed):
              "response tag against the tag/version table; KMIP 2.0-only request fields under earlier "
              "versions; DiscoverVersions with every subset of a 7-version menu (orders for k <= 3) x 5 "
              "versions; Query(operations) x 6 versions in descending, ascending and zigzag order on one "
-             "engine followed by one minimal request per advertised operation. distinct_nontrivial = "
+             "engine followed by one minimal request per advertised operation; the C13 request grid "
+             "under the supported versions: every tag of every response against the tag-range/version "
+             "rule, and every request re-sent in the KMIP 1.4 encoding under an earlier header when "
+             "that encoding carries a tag the header's version does not define (must be refused). "
+             "distinct_nontrivial = "
              "distinct (matrix cell, outcome) pairs",
         unencodable_requests=rep.counters.get('unencodable', 0), exhaustive=True,
+        grid_requests=rep.counters.get('grid_requests', 0),
+        grid_foreign_requests=rep.counters.get('grid_foreign_requests', 0),
     ), assumptions=[
         "mc/ref/versions.py is the reading of the KMIP 1.0-2.0 specifications used as the oracle",
         "'refuses' = any failure response without side effects; Operation Policy Name may stop being "
@@ -439,6 +556,11 @@ def run(tier, seed):
 def replay(doc):
     part = Part()
     m = doc.get('matrix')
+    if m == 'grid':
+        g = doc['grid']
+        grid_fields(part, (g[0], tuple(g[1])), [tuple(doc['version'])])
+        v = [x for x in part.violations if x[2].get('probe') == doc.get('probe')]
+        return bool(v), '\n'.join("%s: %s" % (k, t) for k, t, _ in v[:20]) or 'no violation'
     fn = {'operation': op_matrix, 'unsupported': unsupported_versions, 'attributes': attribute_matrix,
           'supply': attribute_matrix, 'fields': field_matrix, 'fields-in': field_matrix,
           'discover': discover_and_query, 'query': discover_and_query}.get(m)
